@@ -352,23 +352,27 @@ def run_check(prop, module, tier, seed):
     known_hits = []
     unconfirmed = []
     seen_clause = set()
+    todo = []
     for r in refuted:
         ck = clause_key(r["name"])
         if ck in seen_clause:
             continue
         seen_clause.add(ck)
+        todo.append(r)
+
+    def handle(r):
+        ck = clause_key(r["name"])
         kf = [k for k in known if k.get("obligation") == ck]
         if kf:
             k = kf[0]
             path = write_replay(prop, ck, k["witness"]["native"], k["witness"]["inputs"], "known finding witness")
             rc, out = run_replay(path)
+            try:
+                os.unlink(path)
+            except OSError:
+                pass
             if rc == 0:
-                known_hits.append((k, ck))
-                try:
-                    os.unlink(path)
-                except OSError:
-                    pass
-                continue
+                return ("known", k, ck)
             # the stored witness no longer fails but the obligation still does: a different defect
         rp = r.get("replay")
         native_key, hints = (rp if rp else (None, None))
@@ -391,18 +395,29 @@ def run_check(prop, module, tier, seed):
         if not confirmed and native_key:
             found, out2 = native_search(prop, native_key, hints, seed)
             if found is not None:
-                path = write_replay(prop, r["name"], native_key, found, r.get("detail", "") + " | input found by guided native search")
+                path = write_replay(prop, r["name"], native_key, found,
+                                    (r.get("detail") or "") + " | input found by guided native search")
                 confirmed = True
         if confirmed:
-            violations.append((r, path, ""))
-        else:
-            abstract = "uninterpreted" in (r.get("detail") or "")
-            if abstract and native_key:
-                unconfirmed.append(r)
+            return ("violation", r, path, "")
+        abstract = "uninterpreted" in (r.get("detail") or "")
+        if abstract and native_key:
+            return ("unconfirmed", r)
+        path = write_replay(prop, r["name"], native_key or "-", r.get("model") or {},
+                            (r.get("detail") or "") + " | native: " + out[-500:])
+        return ("violation", r, path, " no-failing-input-found")
+
+    if todo:
+        from concurrent.futures import ThreadPoolExecutor
+        with ThreadPoolExecutor(max_workers=int(os.environ.get("VERIF_NPROC", "16"))) as ex:
+            outs = list(ex.map(handle, todo))
+        for o in outs:
+            if o[0] == "known":
+                known_hits.append((o[1], o[2]))
+            elif o[0] == "violation":
+                violations.append((o[1], o[2], o[3]))
             else:
-                path = write_replay(prop, r["name"], native_key or "-", r.get("model") or {},
-                                    (r.get("detail") or "") + " | native: " + out[-500:])
-                violations.append((r, path, " no-failing-input-found"))
+                unconfirmed.append(o[1])
 
     for (k, ck) in known_hits:
         print("KNOWN-FINDING: property=%s %s [%s]" % (prop, k.get("what", ""), ck))
